@@ -315,11 +315,13 @@ function build(kind,spec){ // spec elems: "_" hole | number | "u" | ["t",id] | [
  if(kind==="frozen"||kind==="arraylike-frozen"||kind==="sparse-frozen")Object.freeze(a);
  if(kind==="nonext"||kind==="arraylike-nonext"||kind==="sparse-nonext")Object.preventExtensions(a);
  return a}
+var __recv,__out;
 function runCase(kind,spec,meth,argsSrc){
  var r=build(kind,spec);var out,err="";
  var log=[];
  var args=eval("(function(self,log){return ["+argsSrc+"]})")(r,log);
  try{out=Array.prototype[meth].apply(r,args)}catch(e){err=e.name}
+ __recv=r;__out=out;
  return "res="+(err?("!"+err):ser(out,r))+"|log="+log.join(",")+"|state="+state(r)}
 `
 
@@ -336,6 +338,7 @@ func runMeth(js string) string {
 	if err := json.Unmarshal([]byte(js), &c); err != nil {
 		return "BADOP " + err.Error()
 	}
+	invInfo := ""
 	one := func(kind string) string {
 		vm := newVM()
 		if _, err := vm.RunString(methLib); err != nil {
@@ -380,6 +383,16 @@ func runMeth(js string) string {
 		if err != nil {
 			return "ERR run " + common.OneLine(err.Error())
 		}
+		if kind == c.Kind {
+			// white-box bookkeeping of the receiver and of an Array result after the call
+			for _, name := range []string{"__recv", "__out"} {
+				if o, ok := vm.Get(name).(*goja.Object); ok {
+					if in := goja.VerifC07ArrayInfo(o); in.Tag == "dense" || in.Tag == "sparse" {
+						invInfo += name + "=" + info(o) + ";"
+					}
+				}
+			}
+		}
 		o := vm.Get("a")
 		_ = o
 		return v.String()
@@ -402,7 +415,7 @@ func runMeth(js string) string {
 	case "nonext":
 		twin = one("sparse-nonext")
 	}
-	return subj + " @@ " + ref + " @@ " + twin
+	return subj + " @@ " + ref + " @@ " + twin + " @@ INV:" + invInfo
 }
 
 
